@@ -277,7 +277,7 @@ impl File {
 /// Success clears set-user-ID/set-group-ID as Linux does (chown_mode keeps every other bit).
 #[verifier::external_body]
 pub fn fchown(fd: &File, uid: Option<u32>, gid: Option<u32>, Tracked(w): Tracked<&mut World>) -> (r: std::result::Result<(), io::Error>)
-    ensures fr_data(*old(w), *final(w)), final(w).eintr_left == old(w).eintr_left, final(w).cursor == old(w).cursor, final(w).faults == old(w).faults,
+    ensures fr_data_t(*old(w), *final(w)), final(w).eintr_left == old(w).eintr_left, final(w).cursor == old(w).cursor, final(w).faults == old(w).faults,
         match r {
             Ok(_) => {
                 let i = fd.inode(); let f = old(w).files[i];
